@@ -40,6 +40,7 @@ type c29G struct {
 	perW    map[int][]string
 	opens   int // estimate of published tokens
 	idents  []string
+	blockers []string // "w sid" of sessions whose Close blocks
 }
 
 func (g *c29G) add(format string, a ...any) { g.lines = append(g.lines, fmt.Sprintf(format, a...)) }
@@ -164,7 +165,16 @@ func (g *c29G) prog(w int, allowBlock bool) (string, int) {
 			ops = append(ops, "s")
 		case x < 50:
 			ttl := Pick(r, []int{0, -1, 1, 2, 3, 5})
-			ops = append(ops, fmt.Sprintf("o%d/%s", ttl, g.sidFor(w)))
+			sid := g.sidFor(w)
+			mode := ""
+			switch x := r.Intn(100); {
+			case x < 10:
+				mode = ":p" // this state's Close panics
+			case x < 16:
+				mode = ":b" // this state's Close blocks until `goclose`
+				g.blockers = append(g.blockers, fmt.Sprintf("%d %s", w, sid))
+			}
+			ops = append(ops, fmt.Sprintf("o%d/%s%s", ttl, sid, mode))
 		case x < 68:
 			ops = append(ops, "c")
 		case x < 88:
@@ -262,6 +272,11 @@ func (g *c29G) release() bool {
 }
 
 func (g *c29G) finish() {
+	for _, b := range g.blockers {
+		if g.r.Chance(70) {
+			g.add("goclose %s", b)
+		}
+	}
 	for i := 0; i < 40; i++ {
 		if !g.release() {
 			break
@@ -311,6 +326,8 @@ func (g *c29G) randomOps(n int) {
 			g.add("drain %d %d", w, r.Intn(2))
 		case x < 90:
 			g.add("shutdown %d", w)
+		case x < 94 && len(g.blockers) > 0:
+			g.add("goclose %s", Pick(r, g.blockers))
 		default:
 			g.add("snap")
 		}
@@ -333,7 +350,7 @@ func c29GenLocal(gen *Gen) {
 	for i := 0; i < n; i++ {
 		g := c29NewG(r)
 		g.workers()
-		switch r.Intn(10) {
+		switch r.Intn(12) {
 		case 0, 1, 2: // life cycle: open, then follow-ups
 			w := r.Intn(g.nW)
 			id := g.ident()
@@ -431,6 +448,70 @@ func c29GenLocal(gen *Gen) {
 			}
 			g.nextT, g.opens = 4, 1
 			g.randomOps(r.Range(0, 5))
+		case 8: // a Close that blocks during shutdown / a sweep, while other sessions are closed, deleted, expired, opened
+			w := r.Intn(g.nW)
+			id := g.ident()
+			a, b, cc := g.newSid(w), g.newSid(w), g.newSid(w)
+			g.add("call 0 %d %s - 1 o3/%s:b", w, id, a)
+			g.add("call 1 %d %s - 1 o%d/%s", w, id, Pick(r, []int{1, 3}), b)
+			g.add("call 2 %d %s - 1 o3/%s%s", w, id, cc, Pick(r, []string{"", ":p", ""}))
+			g.blockers = append(g.blockers, fmt.Sprintf("%d %s", w, a))
+			g.nextT, g.opens = 3, 3
+			if r.Chance(30) {
+				g.add("age %d", Pick(r, []int{2, 4}))
+				g.add("reap %d", w)
+			} else {
+				g.add("shutdown %d", w)
+			}
+			g.add("snap")
+			for k := r.Range(1, 4); k > 0; k-- {
+				switch r.Intn(5) {
+				case 0:
+					g.add("delete %d %d %s T1", g.nextT, w, id)
+					g.nextT++
+				case 1:
+					g.add("call %d %d %s T2 0 s,c", g.nextT, w, id)
+					g.nextT++
+				case 2:
+					g.add("age 4")
+					g.add("reap %d", w)
+				case 3:
+					g.add("call %d %d %s - 1 o3/%s,s", g.nextT, w, id, g.newSid(w))
+					g.nextT++
+					g.opens++
+				default:
+					g.add("shutdown %d", w)
+				}
+			}
+			g.add("snap")
+			g.add("goclose %d %s", w, a)
+			g.add("snap")
+			g.randomOps(r.Range(0, 3))
+		case 9: // states whose Close panics, in sweeps with several due sessions, in shutdown and under DELETE
+			w := r.Intn(g.nW)
+			id := g.ident()
+			a, b, cc := g.newSid(w), g.newSid(w), g.newSid(w)
+			g.add("call 0 %d %s - 1 o1/%s:p", w, id, a)
+			g.add("call 1 %d %s - 1 o1/%s", w, id, b)
+			g.add("call 2 %d %s - 1 o1/%s:p", w, id, cc)
+			g.nextT, g.opens = 3, 3
+			switch r.Intn(4) {
+			case 0:
+				g.add("age 2")
+				g.add("reap %d", w)
+			case 1:
+				g.add("shutdown %d", w)
+			case 2:
+				g.add("delete 3 %d %s T0", w, id)
+				g.add("call 4 %d %s T2 0 s,c,s", w, id)
+				g.nextT = 5
+			default:
+				g.add("age 2")
+				g.add("call 3 %d %s T0 0 s", w, id) // in-line eviction of a state whose Close panics
+				g.nextT = 4
+			}
+			g.add("snap")
+			g.randomOps(r.Range(0, 4))
 		default:
 			g.randomOps(r.Range(4, 14))
 		}
